@@ -490,6 +490,14 @@ func processField(ctx context.Context, name string, schema *Schema) (parameter *
 	return parameter, nil
 }
 
+// typeAliases are the type names that stand for a type of a default size - a signature spells the size out
+var typeAliases = map[string]string{
+	"int":    "int256",
+	"uint":   "uint256",
+	"fixed":  "fixed128x18",
+	"ufixed": "ufixed128x18",
+}
+
 func ABIArgumentToTypeString(typeName string, components abi.ParameterArray) string {
 	if strings.HasPrefix(typeName, "tuple") {
 		suffix := typeName[5:]
@@ -498,6 +506,14 @@ func ABIArgumentToTypeString(typeName string, components abi.ParameterArray) str
 			children[i] = ABIArgumentToTypeString(component.Type, component.Components)
 		}
 		return "(" + strings.Join(children, ",") + ")" + suffix
+	}
+	// An alias such as "uint" (also with array dimensions: "uint[2][]") is written in full, as in the entry's own signature
+	base, dimensions := typeName, ""
+	if i := strings.IndexByte(typeName, '['); i >= 0 {
+		base, dimensions = typeName[:i], typeName[i:]
+	}
+	if fullName, isAlias := typeAliases[base]; isAlias {
+		return fullName + dimensions
 	}
 	return typeName
 }
